@@ -56,6 +56,10 @@ CORPUS = [
     "null: !record\n  fields:\n    a: int\n",
     "R: !record\n  fields:\n    v: int*3\n  computedFields:\n    c: v as int[0]\n",
 ]
+# a valid model whose reference graph is a chain of diamonds: 2^40 reference paths, 41 types (a pass that walks paths
+# instead of types does not finish)
+CORPUS.append("".join("D%d: !record\n  fields:\n    a: D%d\n    b: D%d?\n    c: D%d*\n\n" % (i, i + 1, i + 1, i + 1) for i in range(40))
+              + "D40: !record\n  fields:\n    x: int32\n")
 BASE = ("Rec: !record\n  fields:\n    x: int32\n\nGen<T>: !record\n  fields:\n    v: T\n\nEn: !enum\n  values: [p, q]\n\nFl: !flags\n  values: [p, q]\n\n")
 
 
@@ -168,6 +172,11 @@ def run(ctx):
     # corpus of inputs that once crashed the front end (each repaired in /repo, see known_findings.json): they run first
     for text in CORPUS:
         cases.append(("corpus", {"m/m.yml": text}, ok_pkg, "validate"))
+    # the same chain of diamonds (30 levels) with a protocol, through `generate` for Python: the generator computes the default
+    # value of a record by recursing into its fields without remembering results (known finding)
+    dia = "".join("D%d: !record\n  fields:\n    a: D%d\n    b: D%d?\n\n" % (i, i + 1, i + 1) for i in range(30)) + \
+        "D30: !record\n  fields:\n    x: int32\n\nPd: !protocol\n  sequence:\n    d: D0\n"
+    cases.append(("diamond-generate", {"m/m.yml": dia}, ok_pkg + "python:\n  outputDir: ../out\n", "generate"))
     for t in TYPE_ATOMS + TAGGED:
         cases.append(("type", {"m/m.yml": model_with_type(t)}, ok_pkg, "validate"))
         cases.append(("type-in-field", {"m/m.yml": model_with_field(t)}, ok_pkg, "validate"))
@@ -224,6 +233,9 @@ def run(ctx):
         ctx.case((kind, cmd, repr(main), repr(mf)), sample={"kind": kind, "exit": rc, "first_line": out.strip().splitlines()[0][:120] if out.strip() else ""})
         if rc is None and isinstance(main, str) and re.search(r"(\w+<){20,}", main):
             ctx.report("exponential-generic-nesting", "`yardl %s` did not finish within %d s on a type with 30 nested generic arguments" % (cmd, TIMEOUT), rep)
+        elif rc is None and kind == "diamond-generate":
+            ctx.report("exponential-generation-on-shared-references", "`yardl generate` (Python) did not finish within %d s on a valid model of 31 records in "
+                       "which every record refers to the next one twice" % TIMEOUT, rep)
         elif rc is None:
             ctx.report("hang:" + kind, "`yardl %s` did not finish within %d s on a %s input" % (cmd, TIMEOUT, kind), rep)
         elif rc not in (0, 1) or "panic:" in out or "goroutine " in out or "fatal error:" in out:
